@@ -42,7 +42,8 @@ claim("C13", RUN + "Ghost polled/aborted flags asserted at every invocation, han
 claim("C14", RUN + "emit's call-site contract is a ghost event automaton (retry* then one terminal event) checked at every real emit site; exit "
       "obligations tie the terminal event to the delivered stop reason and final failure; emit's body proved to feed both hooks identically.",
       TB + ENVN + "Timeline collector proved separately (one timeline event per emitted event whatever on_metric does); breaker events: every "
-      "transition/rejection the breaker contract announces is reported once, in order, with the state at announcement (policy-layer tasks).", "DESIGN.md C14")
+      "transition/rejection the breaker contract announces is reported once, in order, with the state at announcement (policy-layer tasks); that contract (event name, decision.state = the state after the "
+      "operation) is itself proved on the bodies of CircuitBreaker.allow/record_* in the same check (circuit.* tasks).", "DESIGN.md C14")
 claim("C15", "Exception confinement and frame proved on the bodies of emit and _call_before_sleep[_async] (every hook outcome incl. raising), and every other "
       "result is proved uniformly in the hooks' behaviour because callers only see those contracts.", TB + ENVN, "DESIGN.md C15")
 claim("C16", RUN + "SA is the sleep-handler protocol itself (SLEEP/DEFER/ABORT cases, exactly-once counters), proved on both sleep actions; runner exits tie DEFER/ABORT to delivery.",
